@@ -233,20 +233,49 @@ func maxInt(a, b int) int {
 type retained struct {
 	got, want []byte
 	desc      string
+	call      int
 }
 
 var retainedBy = map[string]*retained{}
 
-// retainCheck returns a description of the earlier result that has changed, or "". Then it remembers (got, desc).
+// retainCheck returns a description of an earlier result that has changed, or "". Then it remembers (got, desc). Two
+// horizons: the result of the PREVIOUS call of the family is looked at on every call; results from long ago - the 1st,
+// 2nd, 4th, 8th ... call of the process and every 4096th - stay remembered for the life of the process (at most 48 of
+// them, up to 64 KiB each) and are all looked at every 256 calls: storage that is handed out again only after many
+// calls or many megabytes (a ring, a pool with a long queue) shows there and nowhere else.
 func retainCheck(family string, got []byte, desc string) string {
 	msg := ""
 	if r := retainedBy[family]; r != nil && !bytes.Equal(r.got, r.want) {
 		msg = fmt.Sprintf("an earlier result (%s) was %x when it was returned and reads %x after a later call (%s)", r.desc, clip(r.want, 48), clip(r.got, 48), desc)
 	}
+	lt := longTerm[family]
+	if lt == nil {
+		lt = &longRetained{}
+		longTerm[family] = lt
+	}
+	lt.calls++
+	if msg == "" && lt.calls%256 == 0 {
+		for _, r := range lt.kept {
+			if !bytes.Equal(r.got, r.want) {
+				msg = fmt.Sprintf("a result returned long ago (%s; call %d of this process, now at call %d) was %x when it was returned and reads %x now (%s)", r.desc, r.call, lt.calls, clip(r.want, 48), clip(r.got, 48), desc)
+				break
+			}
+		}
+	}
 	if got == nil {
 		delete(retainedBy, family)
 	} else {
 		retainedBy[family] = &retained{got: got, want: append([]byte(nil), got...), desc: desc}
+		if n := lt.calls; (n&(n-1) == 0 || n%4096 == 0) && len(lt.kept) < 48 && len(got) > 0 && len(got) <= 1<<16 {
+			lt.kept = append(lt.kept, &retained{got: got, want: append([]byte(nil), got...), desc: desc, call: n})
+		}
 	}
 	return msg
 }
+
+type longRetained struct {
+	calls int
+	kept  []*retained
+}
+
+var longTerm = map[string]*longRetained{}
